@@ -318,7 +318,7 @@ func c03Item(r *gen.R) gen.ItemSpec {
 }
 
 func c03Random(c *Ctx, i int, r *gen.R) {
-	spec := r.Table(gen.TableOpts{MaxCols: 5, MaxRows: 6, ZeroHeaderOK: true, MinCols: 1, Item: c03Item, Noise: gen.NoiseSkipable | gen.NoiseCallbacks | gen.NoiseAlignElsewhere})
+	spec := r.Table(gen.TableOpts{MaxCols: 5, MaxRows: 6, ZeroHeaderOK: true, MinCols: 1, Item: c03Item, Noise: gen.NoiseSkipable | gen.NoiseCallbacks | gen.NoiseFailingCallbacks | gen.NoiseAlignElsewhere})
 	c03Check(c, &spec, allDecorations(c, r, 2), drawStage(r, len(spec.Rows), spec.NCols()), true)
 }
 
